@@ -170,15 +170,19 @@ def run_case(case):
                         # half-width max_dist_init around the first observation
                         r0 = model.max_dist_init
                         y0, x0 = trace[0][0], trace[0][1]
-                        allowed = {(a, b) for (a, b) in model.edges
-                                   if abs(graph[a][0][0] - y0) <= r0 and abs(graph[a][0][1] - x0) <= r0}
-                        if allowed != set(model.edges):
+                        # (a start node within rounding of a box side may fall on either side: both readings are tried)
+                        for eps in (-1e-9, 1e-9):
+                            allowed = {(a, b) for (a, b) in model.edges
+                                       if abs(graph[a][0][0] - y0) <= r0 + eps and abs(graph[a][0][1] - x0) <= r0 + eps}
+                            if allowed == set(model.edges):
+                                continue
                             ref2 = model.all_walks(trace, start_allowed=allowed)
                             if not judge(m, r, ref2, model, trace):
                                 res["k"].append({"id": "D2", "case": mini,
                                                  "msg": f"start candidates hidden by the in-memory edge pre-filter: {sorted(set(model.edges) - allowed)}; "
                                                         f"result agrees with the optimum over the remaining start set; " + msgs[0]})
                                 msgs = []
+                                break
                     for msg in msgs[:2]:
                         res["v"].append({"msg": f"{backend} {al.describe_graph(graph)} trace {trace} cfg {cfg}: {msg}", "case": mini})
                     # conformance of the model: one optimal walk through the implementation's own scoring
